@@ -70,6 +70,7 @@ type SpecFunc struct {
 	BodyTxt string
 	SMT     string // raw smt body
 	Uninterp bool
+	IsPred  bool
 	Where   string
 }
 
@@ -104,6 +105,7 @@ func newContractSet() *ContractSet {
 }
 
 var reFunc = regexp.MustCompile(`^func\s+(\S+)(.*)$`)
+var rePred = regexp.MustCompile(`^pred\s+([A-Za-z_][A-Za-z0-9_]*)\s*\(([^)]*)\)\s*=\s*(.*)$`)
 var reSpec = regexp.MustCompile(`^spec\s+([A-Za-z_][A-Za-z0-9_]*)\s*\(([^)]*)\)\s*(\S+)\s*(=|smt|uninterpreted)\s*(.*)$`)
 var reLemma = regexp.MustCompile(`^lemma\s+([A-Za-z_][A-Za-z0-9_.]*)\s*(\[[^\]]*\])?\s*(?:\(([^)]*)\))?\s*:\s*(.*)$`)
 
@@ -375,6 +377,23 @@ func (cs *ContractSet) parseFile(path string, pkgName string) error {
 			case "uninterpreted":
 				sf.Uninterp = true
 			}
+			key := sf.Name
+			if pkgName != "" {
+				key = pkgName + "." + sf.Name
+			}
+			cs.Specs[key] = sf
+			cur = nil
+			curLoop = nil
+		case "pred":
+			m := rePred.FindStringSubmatch(ln)
+			if m == nil {
+				return fail(fmt.Errorf("bad pred line: %s", ln))
+			}
+			e, err := parseExprText(m[3])
+			if err != nil {
+				return fail(err)
+			}
+			sf := &SpecFunc{Name: m[1], Pkg: pkgName, Params: parseParams(m[2]), Result: "bool", Body: e, BodyTxt: m[3], Where: where, IsPred: true}
 			key := sf.Name
 			if pkgName != "" {
 				key = pkgName + "." + sf.Name
